@@ -731,7 +731,8 @@ Definition c20_sixel_mismatches (cases : list placement_case) : list Z :=
                                 (map (fun f : rawframe => snd f) frames) &&
                               list_eqb (list_eqb same_placement)
                                 (next_at_renders [] ops)
-                                (map (fun f : rawframe => map mk_p (snd (fst f))) frames))) cases.
+                                (map (fun f : rawframe => map mk_p (snd (fst f))) frames) &&
+                              list_eqb Bool.eqb (refresh_at_renders false ops) (frame_flags frames))) cases.
 
 Definition frame_sixel_ok (refresh : bool) (prev cur : list placement) (ev : list rawev) : bool :=
   list_eqb rawev_eqb ev
@@ -744,7 +745,8 @@ Fixpoint frames_sixel_ok (prev : list placement) (frames : list rawframe) : bool
   end.
 
 Definition c20_sixel_violations (cases : list placement_case) : list Z :=
-  bad_indices (fun c => negb (frames_sixel_ok [] (snd c) && frames_inside_ok (fst c) (snd c))) cases.
+  bad_indices (fun c => negb (list_eqb Bool.eqb (refresh_at_renders false (map mk_op (fst c))) (frame_flags (snd c)) &&
+                              frames_sixel_ok [] (snd c) && frames_inside_ok (fst c) (snd c))) cases.
 
 (* ------------------------------------------------------------------ kitty transmissions (chunking)
 
